@@ -299,6 +299,16 @@ def seed_corpus():
             except Exception:
                 continue
             corpus[fmt].append(("writer:" + name, txt))
+    # supercell variants of the PDFfit / DISCUS documents: the same atoms declared as a 2 x 1 x 1 (or 1 x 1 x 2 ...) block of
+    # half as many sites per cell, so that the `ncell` multiplier branch of the readers is entered by valid seeds
+    for fmt in ("pdffit", "discus"):
+        extra = []
+        for name, txt in corpus.get(fmt, []):
+            m = re.search(r"^(ncell\s+)(\d+)\s*,\s*(\d+)\s*,\s*(\d+)\s*,\s*(\d+)\s*$", txt, re.M)
+            if m and m.group(2, 3, 4) == ("1", "1", "1") and int(m.group(5)) % 2 == 0 and int(m.group(5)) > 0:
+                for k, mult in enumerate(("2, 1, 1", "1, 1, 2")):
+                    extra.append((name + ":supercell%d" % k, txt[:m.start()] + "%s%s, %d" % (m.group(1), mult, int(m.group(5)) // 2) + txt[m.end():]))
+        corpus[fmt] += extra[:4]
     # keep only documents the current parser accepts (a seed must be valid)
     good = {f: [] for f in FORMATS}
     rejected = []
